@@ -22,6 +22,7 @@ import XsVerif.Lemmas.Modes
 import XsVerif.Model.AttrDefaults
 import XsVerif.Lemmas.AttrDefaults
 import XsVerif.Model.NsLeak
+import XsVerif.Model.CharData
 import XsVerif.Lemmas.NsStack
 
 namespace XsVerif.Props.C04
@@ -536,6 +537,51 @@ theorem ns_leak_counterexample :
       [(0, some "urn:b"), (1, some "urn:b"), (2, some "urn:b")] := by decide
 
 end NsScope
+
+/-! ### character data of element-only content and comment / PI nodes (Model/CharData.lean) -/
+section CharData
+open XsVerif.CharData
+
+theorem nonBlank_append (a b : String) : nonBlank (a ++ b) = (nonBlank a || nonBlank b) := by
+  simp [nonBlank, String.toList_append, List.any_append]
+
+theorem dropNodes_check (kids : List Kid) : ∀ cur : String,
+    (nonBlank (dropNodes cur kids).1 || (dropNodes cur kids).2.any nonBlank) =
+      (nonBlank cur || kids.any (fun k => nonBlank k.tail)) := by
+  induction kids with
+  | nil => intro cur; simp [dropNodes]
+  | cons k ks ih =>
+    intro cur
+    cases k with
+    | node t =>
+      simp only [dropNodes, List.any_cons, Kid.tail]
+      rw [ih (cur ++ t), nonBlank_append, Bool.or_assoc]
+      rfl
+    | elem t =>
+      simp only [dropNodes, List.any_cons, Kid.tail]
+      rw [ih t]
+      rfl
+
+/-- **comment / PI nodes are transparent for the character-data check**: the check of the code gives the same
+    answer on a tree that keeps these nodes and on the tree a parser builds that drops them — for every element,
+    every number and position of nodes and every text. -/
+theorem cdata_check_source_independent (text : String) (kids : List Kid) :
+    hasCdataDropped text kids = hasCdata text kids := by
+  unfold hasCdataDropped hasCdata
+  exact dropNodes_check kids text
+
+example : hasCdata "" [.elem "", .node "stray", .elem " "] = true ∧
+    hasCdataDropped "" [.elem "", .node "stray", .elem " "] = true ∧
+    hasCdata " " [.node "\n", .elem ""] = false := by decide
+
+/-- skipping the tails of comment / PI children breaks it: `<r><a/><!-- c -->stray</r>` is accepted from a tree
+    that keeps the comment and rejected from text.  Replayed on the real code (documents with a node followed by
+    character data). -/
+theorem cdata_skipping_nodes_counterexample :
+    hasCdataSkippingNodes "" [.elem "", .node "stray"] = false ∧
+    hasCdataDropped "" [.elem "", .node "stray"] = true := by decide
+
+end CharData
 
 /-! ### value constraints and the document-level state (Model/AttrDefaults.lean)
 
